@@ -170,10 +170,13 @@ void rsValuesFacet::PruneStructure(const EntityUID target) {
   if (!oldData.has_value()) {
     return;
   } 
-  const auto& typeValue = core.GetParse(target).exprType;
-  assert(typeValue.has_value());
-  // NOLINTNEXTLINE(bugprone-exception-escape, bugprone-unchecked-optional-access)
-  const auto& type = std::get<rslang::Typification>(typeValue.value());
+  const auto* typePtr = core.GetParse(target).Typification();
+  if (typePtr == nullptr || !CheckCompatible(oldData.value(), *typePtr)) {
+    // Note: structure lost or changed its typification, so stored data is not valid anymore
+    ResetFor(target);
+    return;
+  }
+  const auto& type = *typePtr;
   if (!oldData->IsCollection()) {
     if (!CheckBasicElements(oldData.value(), type)) {
       storage->Erase(target);
